@@ -356,7 +356,7 @@ impl Property for P {
                                 .unwrap_or(u32::MAX)
                         })
                         .collect();
-                    let keep = (k + m).min(firsts.len());
+                    let keep = k.saturating_add(m).min(firsts.len());
                     if keep == 0 {
                         // every rotated file may be gone: only the current file must be complete
                         after_kill
@@ -484,7 +484,7 @@ impl Property for P {
                 break;
                 }
                 let gone = recs.iter().any(|r| !fin.records.contains(r));
-                if gone && plain + gz + usize::from(direct) < k + m {
+                if gone && plain + gz + usize::from(direct) < k.saturating_add(m) {
                     out.set_fail(
                         format!("restart-destroyed-records-within-limits@{point}"),
                         format!("{what}: old records are gone after the restart although only {plain} plain + {gz} compressed rotated files exist (limits {k}/{m}); after kill {recs:?}, after restart {:?}; files {:?}", fin.records, fin.fam.iter().map(|f| format!("{}[{}B]", f.name, f.content.len())).collect::<Vec<_>>()),
